@@ -46,18 +46,18 @@ def lit_in(val, lit):
 class C06(Prop):
     id = "C06"
     props_file = "Props/C06.v"
-    refuted_file = "Refuted/C06.v"
+    refuted_file = None
     rule = ("lists of 0..5 dict records (fields id,k1,f,a each present with p=0.7; string, int and half-float values, duplicates) "
             "at depth 0..3 of an enclosing tree; selecting expressions P[*]/f, P/f, P[k=v]/f, P[k!=v]/f, P[k~v]/f, quoted / "
             "unquoted literal, P/k[text()=v]/../f, literals occurring and not occurring; item access, get and first; plus "
-            "chained selections: predicate after predicate (recorded finding) and fan-out first (orders/items[k=v]/f, get and first). non-trivial = at least one record selected; distinct = distinct (tree, path, entry point)")
+            "chained selections: predicate after predicate and fan-out first (orders/items[k=v]/f, get and first). non-trivial = at least one record selected; distinct = distinct (tree, path, entry point)")
     trusted_base = ["reference selection = Python list comprehension over the plain records (harness)"]
     streams = {"lookup": X.LOOKUP_STREAM}
     classifiers = {
-        "c06_chained": lambda case, obs, failure: case["input"].get("form") == "chained",
         "c06_tilde_in_eq_literal": lambda case, obs, failure: case["input"].get("form") in ("eq", "eqq", "text", "textq")
         and "~" in case["input"].get("v", "")
-        or case["input"].get("form") == "fanchain" and "=" in case["input"]["xpath"].split("/")[-2] and "~" in case["input"].get("v", ""),
+        or case["input"].get("form") == "fanchain" and "=" in case["input"]["xpath"].split("/")[-2] and "~" in case["input"].get("v", "")
+        or case["input"].get("form") == "chained" and "~" in case["input"].get("v", ""),
     }
 
     def valid(self, case):
@@ -122,7 +122,7 @@ class C06(Prop):
                 # the second answer is about the records that are there now
                 pre = {"recs": gen_recs(rng), "graft": len(ppath) if rng.random() < 0.6 or len(ppath) < 2 or not isinstance(ppath[-1], str)
                        else len(ppath) - 1}
-            for kind in ((1,) if form == "chained" else (1, 2) if form == "fanchain" else (0, 1, 2)):
+            for kind in ((1, 2) if form in ("chained", "fanchain") else (0, 1, 2)):
                 inp = {"tree": t, "mode": mode, "xpath": xp, "kind": kind, "form": form, "ppath": ppath, "f": f, "k": k, "v": v}
                 if pre:
                     inp["pre"] = pre
@@ -189,6 +189,8 @@ class C06(Prop):
                             if e is None:
                                 return None
                             if e:
+                                if isinstance(r[f], list) and len(r[f]) == 1:
+                                    return None   # first unwraps a singleton list value once more: not covered by the statement
                                 sel.append(r[f])
                     out.append(sel)
             return ("nested", out)
